@@ -44,11 +44,20 @@ func propExpiryBounds(c *Case) {
 
 	var cfgTTL time.Duration
 
-	switch c.Weighted("cfgTTL", 2, 2, 5) {
+	switch c.Weighted("cfgTTL", 2, 2, 5, 1) {
 	case 0:
 		cfgTTL = 0
 	case 1:
 		cfgTTL = cache.UnlimitedTTL
+	case 3:
+		// only -1ns means "unlimited"; any other negative configured TTL yields entries born expired
+		cfgTTL = -drawDuration(c, "cfgTTL")
+		if cfgTTL == cache.UnlimitedTTL {
+			cfgTTL = -2
+		}
+
+		c.Class("negative-config-ttl")
+		c.NonTrivial()
 	default:
 		cfgTTL = drawDuration(c, "cfgTTL")
 	}
